@@ -769,3 +769,35 @@ pub fn tree_sig(t: &Snapshot) -> u64 {
     }
     fnv(s.as_bytes())
 }
+
+/// Scale and unusual names: add a wide directory (150-500 files, every 7th just above the
+/// block size, 40 subdirectories, names of 250 bytes and other awkward ones) and a chain of
+/// 30 nested directories to a tree.
+pub fn add_wide_and_deep(spec: &mut Snapshot, rng: &mut Rng, block: usize, max_plain_size: usize) {
+    let wide = "/wide";
+    spec.insert(wide.into(), Node::dir());
+    let n_files = 150 + rng.below(350) as usize;
+    for i in 0..n_files {
+        let len = if i % 7 == 0 { block.min(300) + 1 } else { rng.below(12) as usize };
+        let mut n = Node::file(gen_content(rng, len.min(max_plain_size)));
+        n.mtime_s = 1_500_000_000 + i as i64;
+        n.mode = 0o600 + (i as u32 % 0o100);
+        spec.insert(format!("{wide}/f{i:04}"), n);
+    }
+    for i in 0..40 {
+        spec.insert(format!("{wide}/d{i:02}"), Node::dir());
+        spec.insert(format!("{wide}/d{i:02}/x"), Node::file(gen_content(rng, i)));
+    }
+    let long_ascii = "L".repeat(250);
+    let long_multi = "é".repeat(125);
+    for name in [long_ascii.as_str(), long_multi.as_str(), "a\\b", "trailing.", "trailing ", "CON", "~", "-", "..."] {
+        spec.insert(format!("{wide}/{name}"), Node::file(gen_content(rng, 3)));
+    }
+    let mut deep = String::from("/deep");
+    spec.insert(deep.clone(), Node::dir());
+    for i in 0..30 {
+        deep = format!("{deep}/n{i}");
+        spec.insert(deep.clone(), Node::dir());
+    }
+    spec.insert(format!("{deep}/bottom"), Node::file(gen_content(rng, 10)));
+}
